@@ -9,6 +9,7 @@ import (
 	"go/constant"
 	"go/token"
 	"go/types"
+	"os"
 	"sort"
 	"strings"
 
@@ -206,10 +207,23 @@ func checkPrefixTables(r *Reporter, p *Prog, rule string) {
 					var bits int
 					fmt.Sscanf(strings.TrimPrefix(k, "binary.LittleEndian.Uint"), "%d", &bits)
 					return bits / 8
+				case strings.HasPrefix(k, "binary.LittleEndian.AppendUint"), strings.HasPrefix(k, "binary.LittleEndian.PutUint"):
+					var bits int
+					fmt.Sscanf(strings.TrimPrefix(strings.TrimPrefix(k, "binary.LittleEndian.AppendUint"), "binary.LittleEndian.PutUint"), "%d", &bits)
+					return bits / 8
+				}
+			case *ast.CompositeLit:
+				// []byte{byte(l)}: a one-byte prefix
+				if at, ok := x.Type.(*ast.ArrayType); ok && at.Len == nil && exprKey(at.Elt) == "byte" && len(x.Elts) == 1 {
+					return 1
 				}
 			case *ast.IndexExpr:
-				if exprKey(x.X) == "Read" {
-					return widthOfTypeName(exprKey(x.Index))
+				// an instantiation of a generic read/write helper with a sized unsigned integer type:
+				// Read[uint16], readPrefix[uint32], ...
+				if fn, _ := info.Uses[selIdent(x.X)].(*types.Func); fn != nil || exprKey(x.X) == "Read" {
+					if wdt := widthOfTypeName(exprKey(x.Index)); wdt > 0 {
+						return wdt
+					}
 				}
 				if strings.HasSuffix(exprKey(x.X), ".src") && strings.HasSuffix(exprKey(x.Index), ".offset") {
 					return 1
@@ -1139,22 +1153,59 @@ func checkNoSizeDrivenAlloc(r *Reporter, p *Prog) {
 	// uint64 -> int conversions of prefixes are range-checked
 	if f := p.CFGOf(pkgStream, "", "readFixedSize"); f != nil {
 		sinfo := p.Pkg(pkgStream).TypesInfo
-		_ = sinfo
-		okGuard := false
-		ast.Inspect(f.Body, func(nd ast.Node) bool {
-			cc, ok := nd.(*ast.CaseClause)
-			if !ok || len(cc.List) != 1 || !strings.HasSuffix(exprKey(cc.List[0]), "SeriLengthPrefixTypeAsUint64") {
-				return true
+		// case split on the prefix type: with lenType == ...AsUint64 (and not the narrower constants)
+		// every path to a conversion int(x) of a uint64 value crosses an edge on which
+		// x <= math.MaxInt is known - whatever the dispatch form (case body, merged tail guarded by
+		// `lenType == ...AsUint64 && x > math.MaxInt`)
+		assign := map[string]bool{}
+		f.forEachEdgeFact(func(e Edge, b *cfg.Block, ft fact) {
+			rel, ok := relOfWith(ft.Atom, func(x ast.Expr) string { return f.KeyAt(x, Point{b, len(b.Nodes) - 1}) })
+			if !ok || rel.Op != "==" && rel.Op != "!=" {
+				return
 			}
-			for _, st := range cc.Body {
-				if is, ok := st.(*ast.IfStmt); ok {
-					if rel, ok := relOf(is.Cond); ok && (rel.Op == "<" || rel.Op == "<=") && strings.HasSuffix(rel.L, "math.MaxInt") {
-						okGuard = true
-					}
+			if rel.Op == "!=" {
+				rel = negRel(rel)
+			}
+			for c := range prefixConsts {
+				if strings.HasSuffix(rel.L, c) || strings.HasSuffix(rel.R, c) {
+					assign[rel.String()] = c == "SeriLengthPrefixTypeAsUint64"
 				}
 			}
-			return true
 		})
+		isU64 := func(e ast.Expr) bool {
+			bt, ok := sinfo.TypeOf(e).Underlying().(*types.Basic)
+			return ok && bt.Kind() == types.Uint64
+		}
+		var convArg ast.Expr
+		isConv := func(n ast.Node) bool {
+			cl, ok := n.(*ast.CallExpr)
+			if !ok || len(cl.Args) != 1 || rawKey(cl.Fun) != "int" || sinfo.TypeOf(cl.Args[0]) == nil || !isU64(cl.Args[0]) {
+				return false
+			}
+			convArg = cl.Args[0]
+			return true
+		}
+		okGuard := len(assign) >= 4 && len(f.Find(isConv)) > 0
+		if okGuard {
+			argKey := rawKey(convArg)
+			if _, found := f.PathUnder(assign, nil, isConv, func(facts []fact, pt Point) bool {
+				for _, ft := range facts {
+					rel, ok := relOfWith(ft.Atom, func(x ast.Expr) string { return f.KeyAt(x, pt) })
+					if !ok {
+						continue
+					}
+					if !ft.Pol {
+						rel = negRel(rel)
+					}
+					if rel.Op == "<=" && strings.HasSuffix(rel.R, "math.MaxInt") && (rel.L == argKey || rel.L == f.KeyAt(convArg, pt)) {
+						return true
+					}
+				}
+				return false
+			}); found {
+				okGuard = false
+			}
+		}
 		if okGuard {
 			r.Pass("alloc/prefix-fits-int", pkgStream+".readFixedSize", f.P.posStr(f.Body.Pos()), "a uint64 prefix above MaxInt is rejected before it is converted")
 		} else {
@@ -1334,21 +1385,19 @@ func checkPrefixBoundedLoops(r *Reporter, c *Ctx, p *Prog) {
 	}
 }
 
+// allowedDecodePanics: programmer-error panics by their message (whichever function holds them).
 var allowedDecodePanics = map[string]string{
-	pkgSer + ".Serializer.writeSliceLength: unknown slice length type":         "programmer error: a SeriLengthPrefixType outside the declared constants (all four are handled)",
-	pkgSer + ".Deserializer.readSliceLength: unknown slice length type":        "programmer error: as above",
-	pkgSer + ".Serializer.sourceToSerializables: invalid source":               "programmer error: wrong Go type passed by the caller",
-	pkgSer + ".numSize: unsupported numSize type":                              "programmer error: destination type chosen by the caller",
-	pkgSer + ".Deserializer.ReadNum: unsupported ReadNum type":                 "programmer error: destination type chosen by the caller",
-	pkgSer + ".Deserializer.readSerializablesIntoTarget: invalid target":       "programmer error: wrong Go type passed by the caller",
-	pkgSer + ".Deserializer.readSerializableIntoTarget: target parameter must": "programmer error: wrong Go type passed by the caller",
-	pkgSer + ".Deserializer.CheckTypePrefix: invalid type prefix":              "programmer error: TypeDenotationType outside the declared constants",
-	pkgStream + ".readFixedSize: unknown slice length type":                    "programmer error: as above",
-	pkgStream + ".writeFixedSize: unknown slice length type":                   "programmer error: as above",
+	"unknown slice length type": "programmer error: a SeriLengthPrefixType outside the declared constants (all four are handled)",
+	"invalid source":            "programmer error: wrong Go type passed by the caller",
+	"unsupported numSize type":  "programmer error: destination type chosen by the caller",
+	"unsupported ReadNum type":  "programmer error: destination type chosen by the caller",
+	"invalid target":            "programmer error: wrong Go type passed by the caller",
+	"target parameter must":     "programmer error: wrong Go type passed by the caller",
+	"invalid type prefix":       "programmer error: TypeDenotationType outside the declared constants",
 }
 
 func checkDecodePanics(r *Reporter, p *Prog) {
-	type site struct{ key, pos string }
+	type site struct{ key, pos, msg string }
 	var sites []site
 	for _, pkg := range []string{pkgSer, pkgSerix, pkgStream, pkgTypeU} {
 		for _, fd := range p.AllFuncDecls(pkg) {
@@ -1380,7 +1429,7 @@ func checkDecodePanics(r *Reporter, p *Prog) {
 				if len(msg) > 32 {
 					msg = msg[:32]
 				}
-				sites = append(sites, site{funcKey(pkg, fd) + ": " + msg, p.posStr(cl.Pos())})
+				sites = append(sites, site{funcKey(pkg, fd) + ": " + msg, p.posStr(cl.Pos()), msg})
 				return true
 			})
 		}
@@ -1388,7 +1437,7 @@ func checkDecodePanics(r *Reporter, p *Prog) {
 	for _, s := range sites {
 		matched := ""
 		for k := range allowedDecodePanics {
-			if strings.HasPrefix(s.key, k) {
+			if strings.HasPrefix(s.msg, k) {
 				matched = k
 			}
 		}
@@ -1580,7 +1629,13 @@ func runC03(c *Ctx) {
 					// reaching the per-element work without the validator set up
 					return containsMatch(f.nodeAt(pt), func(m ast.Node) bool {
 						cl, ok := m.(*ast.CallExpr)
-						return ok && (exprKey(cl.Fun) == "s.buf.Write" || exprKey(cl.Fun) == "itemDeserializer")
+						if !ok {
+							return false
+						}
+						if t := infoS.TypeOf(cl.Fun); t != nil && strings.HasSuffix(t.String(), ".DeserializeFunc") {
+							return true
+						}
+						return strings.HasSuffix(exprKey(cl.Fun), ".buf.Write")
 					})
 				}); found {
 					bad = true
@@ -1588,13 +1643,18 @@ func runC03(c *Ctx) {
 			}
 		}
 		// the element validator is applied to every element
-		applied := false
-		ast.Inspect(f.Body, func(n ast.Node) bool {
-			if cl, ok := n.(*ast.CallExpr); ok && (exprKey(cl.Fun) == "arrayElementValidator" || exprKey(cl.Fun) == "eleValFunc") && len(cl.Args) == 2 {
-				applied = true
+		// (a call of a value of type ElementValidationFunc, in the function or a helper spliced into it)
+		applied := len(f.Find(func(n ast.Node) bool {
+			cl, ok := n.(*ast.CallExpr)
+			if !ok || len(cl.Args) != 2 {
+				return false
 			}
-			return true
-		})
+			t := infoS.TypeOf(cl.Fun)
+			return t != nil && strings.HasSuffix(t.String(), ".ElementValidationFunc")
+		})) > 0
+		if os.Getenv("HC_DBG") != "" {
+			println("DBG validators", key, "valT", len(valT), "bad", bad, "applied", applied)
+		}
 		if bad || !applied {
 			r.Fail("canonical/validators-both-sides", key, f.P.posStr(f.Body.Pos()), "under the validation bit both sides must check the bounds and run the element validator on every element; otherwise the decoder accepts bytes the encoder could never produce (or vice versa)")
 		} else {
@@ -1627,25 +1687,48 @@ func runC03(c *Ctx) {
 				}
 			}
 		}
-		var lit *ast.FuncLit
-		ast.Inspect(fd.Body, func(n ast.Node) bool {
-			if as, ok := n.(*ast.AssignStmt); ok && len(as.Lhs) == 1 && exprKey(as.Lhs[0]) == "deserializeItem" {
-				lit, _ = as.Rhs[0].(*ast.FuncLit)
+		// every insert into a decoded map (binary decoder: decode.go, whichever function or literal
+		// holds it) is reachable only through the edge on which the key is known to be absent
+		okDup, nSets := true, 0
+		for _, dfd := range p.AllFuncDecls(pkgSerix) {
+			if dfd.Body == nil || !strings.HasSuffix(p.Fset.Position(dfd.Pos()).Filename, "/decode.go") {
+				continue
 			}
-			return true
-		})
-		okDup := false
-		if lit != nil {
-			lf := newFuncCFG(p, infoX, lit.Body, "decodeMap item")
-			_, fresh := lf.CondEdges(func(e ast.Expr) bool { return exprKey(e) == "value.MapIndex(keyValue).IsValid()" })
-			sets := lf.Find(func(n ast.Node) bool {
-				cl, ok := n.(*ast.CallExpr)
-				return ok && exprKey(cl.Fun) == "value.SetMapIndex"
+			bodies := []*ast.BlockStmt{dfd.Body}
+			ast.Inspect(dfd.Body, func(n ast.Node) bool {
+				if l, ok := n.(*ast.FuncLit); ok {
+					bodies = append(bodies, l.Body)
+				}
+				return true
 			})
-			if len(sets) == 1 && len(fresh) > 0 {
-				_, only := lf.OnlyThroughEdges(sets[0], fresh)
-				okDup = only
+			for _, body := range bodies {
+				lf := newFuncCFG(p, infoX, body, "map insert")
+				for _, spt := range lf.Find(func(n ast.Node) bool {
+					cl, ok := n.(*ast.CallExpr)
+					return ok && strings.HasSuffix(exprKey(cl.Fun), ".SetMapIndex") && len(cl.Args) == 2
+				}) {
+					var cl *ast.CallExpr
+					inspectNoLit(lf.nodeAt(spt), func(n ast.Node) bool {
+						if c, ok := n.(*ast.CallExpr); ok && strings.HasSuffix(exprKey(c.Fun), ".SetMapIndex") && len(c.Args) == 2 {
+							cl = c
+						}
+						return true
+					})
+					if cl == nil {
+						continue
+					}
+					nSets++
+					recv := strings.TrimSuffix(exprKey(cl.Fun), ".SetMapIndex")
+					want := recv + ".MapIndex(" + exprKey(cl.Args[0]) + ").IsValid()"
+					_, fresh := lf.CondEdges(func(e ast.Expr) bool { return exprKey(e) == want })
+					if _, only := lf.OnlyThroughEdges(spt, fresh); !only {
+						okDup = false
+					}
+				}
 			}
+		}
+		if nSets == 0 {
+			okDup = false
 		}
 		if okOrder && okDup {
 			r.Pass("canonical/map", pkgSerix+".API.decodeMap", p.posStr(fd.Pos()), "lexical ordering is forced on decode and a key is inserted only if it is not present yet (duplicates rejected)")
@@ -1678,57 +1761,101 @@ func runC03(c *Ctx) {
 			r.Fail("canonical/optional-length", pkgSerix+".API.decodeStructFields", f.P.posStr(f.Body.Pos()), "the optional-field length marker must equal the bytes actually consumed, otherwise decoding must fail")
 		}
 	}
-	// (5) comparators
-	for _, row := range []struct{ name, want string }{
-		{"LexicalOrderValidator", "(bytes.Compare(prev,next)>0)"},
-	} {
+	// (5) comparators: the two lexical validators, read on edge facts of the returned literal. C is
+	// bytes.Compare(prev, next) (through temporaries). The order error is returned only where C > 0
+	// is known (C == 1 is the same fact for a three-valued Compare), the duplicate error only where
+	// C == 0 is known; and on those edges a nil return is not reachable.
+	for _, row := range []struct {
+		name string
+		dups bool
+	}{{"LexicalOrderValidator", false}, {"LexicalOrderWithoutDupsValidator", true}} {
 		fd := p.FuncDecl(pkgSer, "ArrayRules", row.name)
+		key := pkgSer + ".ArrayRules." + row.name
 		if fd == nil {
-			r.Unresolved("cmp/lexical", pkgSer+".ArrayRules."+row.name, "function not found")
+			r.Unresolved("cmp/lexical", key, "function not found")
 			continue
 		}
-		found := false
+		var lit *ast.FuncLit
 		ast.Inspect(fd.Body, func(n ast.Node) bool {
-			if cc, ok := n.(*ast.CaseClause); ok && len(cc.List) == 1 && exprKey(cc.List[0]) == row.want && len(cc.Body) == 1 {
-				if _, isRet := cc.Body[0].(*ast.ReturnStmt); isRet {
-					found = true
+			if rs, ok := n.(*ast.ReturnStmt); ok && len(rs.Results) == 1 {
+				if l, ok := ast.Unparen(rs.Results[0]).(*ast.FuncLit); ok {
+					lit = l
 				}
 			}
 			return true
 		})
-		if found {
-			r.Pass("cmp/lexical", pkgSer+".ArrayRules."+row.name, p.posStr(fd.Pos()), "prev > next is an order violation (equal elements allowed)")
-		} else {
-			r.Fail("cmp/lexical", pkgSer+".ArrayRules."+row.name, p.posStr(fd.Pos()), "the lexical order validator must reject exactly bytes.Compare(prev, next) > 0")
+		if lit == nil || len(lit.Type.Params.List) < 2 {
+			r.Fail("cmp/lexical", key, p.posStr(fd.Pos()), "the validator must return a function literal (index, next)")
+			continue
 		}
-	}
-	if fd := p.FuncDecl(pkgSer, "ArrayRules", "LexicalOrderWithoutDupsValidator"); fd != nil {
-		cases := map[string]string{}
-		ast.Inspect(fd.Body, func(n ast.Node) bool {
-			sw, ok := n.(*ast.SwitchStmt)
-			if !ok || sw.Tag == nil || exprKey(sw.Tag) != "bytes.Compare(prev,next)" {
-				return true
+		lf := newFuncCFG(p, infoS, lit.Body, key)
+		lf.CallsOpaque = true
+		isC := func(k string) bool {
+			return strings.HasPrefix(k, "bytes.Compare(") && strings.HasSuffix(k, ")") && strings.Count(k, ",") == 1
+		}
+		// the operands must be (previous element, this element): the second is the literal's last parameter
+		nextName := ""
+		if pl := lit.Type.Params.List; len(pl[len(pl)-1].Names) > 0 {
+			nextName = pl[len(pl)-1].Names[len(pl[len(pl)-1].Names)-1].Name
+		}
+		argsOK := func(k string) bool { return strings.HasSuffix(k, ","+nextName+")") }
+		gt := lf.RelEdgesAt(func(rel Rel) bool {
+			return (rel.Op == "<" && rel.L == "0" && isC(rel.R) && argsOK(rel.R)) || (rel.Op == "==" && rel.L == "1" && isC(rel.R) && argsOK(rel.R)) || (rel.Op == "<=" && rel.L == "1" && isC(rel.R) && argsOK(rel.R))
+		})
+		eq := lf.RelEdgesAt(func(rel Rel) bool { return rel.Op == "==" && rel.L == "0" && isC(rel.R) && argsOK(rel.R) })
+		lf.CallsOpaque = false
+		var problems []string
+		nOrder, nDup := 0, 0
+		isNilRet := func(pt Point, atExit bool) bool {
+			if atExit {
+				return false
 			}
-			for _, st := range sw.Body.List {
-				cc := st.(*ast.CaseClause)
-				if len(cc.List) == 1 && len(cc.Body) == 1 {
-					if rs, ok := cc.Body[0].(*ast.ReturnStmt); ok {
-						k := exprKey(rs.Results[0])
-						switch {
-						case strings.Contains(k, "ErrArrayValidationOrderViolatesLexicalOrder"):
-							cases[exprKey(cc.List[0])] = "order"
-						case strings.Contains(k, "ErrArrayValidationViolatesUniqueness"):
-							cases[exprKey(cc.List[0])] = "dup"
-						}
-					}
+			rs, ok := lf.nodeAt(pt).(*ast.ReturnStmt)
+			return ok && len(rs.Results) == 1 && isNil(infoS, rs.Results[0])
+		}
+		for _, pt := range lf.Find(func(n ast.Node) bool { _, ok := n.(*ast.ReturnStmt); return ok }) {
+			rs := lf.nodeAt(pt).(*ast.ReturnStmt)
+			if len(rs.Results) != 1 {
+				continue
+			}
+			k := exprKey(rs.Results[0])
+			switch {
+			case strings.Contains(k, "ErrArrayValidationOrderViolatesLexicalOrder"):
+				nOrder++
+				if _, only := lf.OnlyThroughEdges(pt, gt); !only {
+					problems = append(problems, "the order violation is reported on a path that has not established Compare(prev, next) > 0")
+				}
+			case strings.Contains(k, "ErrArrayValidationViolatesUniqueness"):
+				nDup++
+				if _, only := lf.OnlyThroughEdges(pt, eq); !only {
+					problems = append(problems, "the duplicate error is reported on a path that has not established Compare(prev, next) == 0")
 				}
 			}
-			return true
-		})
-		if cases["1"] == "order" && cases["0"] == "dup" {
-			r.Pass("cmp/lexical", pkgSer+".ArrayRules.LexicalOrderWithoutDupsValidator", p.posStr(fd.Pos()), "Compare == 1 -> order violation, == 0 -> duplicate")
+		}
+		for _, e := range gt {
+			if _, found := lf.reach(Point{e.From.Succs[e.Succ], 0}, nil, isNilRet); found {
+				problems = append(problems, "an out-of-order element (Compare > 0) can be accepted")
+			}
+		}
+		if row.dups {
+			for _, e := range eq {
+				if _, found := lf.reach(Point{e.From.Succs[e.Succ], 0}, nil, isNilRet); found {
+					problems = append(problems, "a duplicate element (Compare == 0) can be accepted")
+				}
+			}
+			if nDup == 0 || len(eq) == 0 {
+				problems = append(problems, "no duplicate rejection on Compare == 0")
+			}
+		} else if nDup > 0 {
+			problems = append(problems, "the plain order validator must allow equal elements")
+		}
+		if nOrder == 0 || len(gt) == 0 {
+			problems = append(problems, "no order-violation rejection on Compare(prev, next) > 0")
+		}
+		if len(problems) == 0 {
+			r.Pass("cmp/lexical", key, p.posStr(fd.Pos()), "Compare(prev, next) > 0 -> order violation"+map[bool]string{true: ", == 0 -> duplicate", false: " (equal elements allowed)"}[row.dups])
 		} else {
-			r.Fail("cmp/lexical", pkgSer+".ArrayRules.LexicalOrderWithoutDupsValidator", p.posStr(fd.Pos()), fmt.Sprintf("expected 1 -> order violation and 0 -> duplicate, found %v", cases))
+			r.Fail("cmp/lexical", key, p.posStr(fd.Pos()), strings.Join(problems, "; "))
 		}
 	}
 	checkTimestampSaturation(r, p)
@@ -1790,7 +1917,8 @@ func checkFreshTargetPerItem(r *Reporter, p *Prog) {
 			default:
 				return true
 			}
-			// innermost per-item scope
+			// innermost per-item scope: a loop body, an item closure, or - outside any loop - the
+			// function itself (a variable defined in a function body is fresh for every call)
 			var scope ast.Node
 			for i := len(stack) - 2; i >= 0 && scope == nil; i-- {
 				switch s := stack[i].(type) {
@@ -1801,6 +1929,9 @@ func checkFreshTargetPerItem(r *Reporter, p *Prog) {
 				case *ast.RangeStmt:
 					scope = s.Body
 				}
+			}
+			if scope == nil {
+				scope = fd.Body
 			}
 			for _, e := range elems {
 				n++
@@ -2549,9 +2680,18 @@ func checkTimestampSaturation(r *Reporter, p *Prog) {
 			continue
 		}
 		f := newFuncCFG(p, info, fd.Body, key)
+		isMax := func(e ast.Expr) bool {
+			k := rawKey(e)
+			return k == "math.MaxInt64" || k == "uint64(math.MaxInt64)"
+		}
 		sat := f.Find(func(n ast.Node) bool {
-			as, ok := n.(*ast.AssignStmt)
-			return ok && len(as.Rhs) == 1 && rawKey(as.Rhs[0]) == "math.MaxInt64"
+			switch x := n.(type) {
+			case *ast.AssignStmt:
+				return len(x.Rhs) == 1 && isMax(x.Rhs[0])
+			case *ast.ReturnStmt:
+				return len(x.Results) == 1 && isMax(x.Results[0])
+			}
+			return false
 		})
 		if len(sat) == 0 {
 			r.Fail(rule, key, p.posStr(fd.Pos()), "no saturation to math.MaxInt64 found")
